@@ -7,6 +7,9 @@ Spec:   spec/ProcFields.tla (+ Regex.tla): SelectDef (selection order), DeleteDe
         patterns incl. a.*, a|ab, ., .b) and exports them.
 Bind:   every exported case (quick: seeded sample) on the real processor: resulting field list = the definition's, every
         row's keys = that list, untouched/renamed fields keep their values, computed value = the definition's.
+        Several resources: exported cases and two-step programs (a field added to every resource, then renamed / deleted /
+        retyped in some) under every resource-selector form: selected resources end with the definition's field list,
+        the others are untouched, and in every resource row keys = field list.
 """
 import contextlib
 import io
@@ -143,6 +146,114 @@ def replay_case(c):
     return dict(ok=True)
 
 
+SELECTORS = [None, 't2', 1, ['t1', 't3'], 't[13]', -1]
+
+
+def selected_names(sel):
+    names = ['t1', 't2', 't3']
+    if sel is None:
+        return names
+    if isinstance(sel, int):
+        return [names[sel]]
+    if isinstance(sel, list):
+        return [n for n in names if n in sel]
+    return ['t1', 't3'] if sel == 't[13]' else [sel]
+
+
+def replay_multi(item):
+    """several resources: the step (a TLC-exported select/delete/rename case, or a two-step program that first adds a field
+    to every resource and then edits it in some) is restricted by a resource selector; every selected resource must end
+    with the definition's field list, every other one untouched, and in EVERY resource each row's keys = its field list"""
+    import dataflows as DF
+    from dataflows import Flow
+    from ..common import tuple_source
+    setup_repo()
+    sel = item['sel']
+    chosen = selected_names(sel)
+    kw = dict(resources=sel)          # explicit: set_type's own default is the last resource
+    try:
+        with contextlib.redirect_stdout(io.StringIO()):
+            if item['kind'] == 'case':
+                c = item['case']
+                op, regex = c['op'], c['regex']
+                schema = [name(n) for n in c['schema']]
+                want_sel = [name(n) for n in c['result']]
+                if op == 'select':
+                    steps = [DF.select_fields([render_re(p) for p in c['arg']], regex=regex, **kw)]
+                elif op == 'delete':
+                    steps = [DF.delete_fields([render_re(p) for p in c['arg']], regex=regex, **kw)]
+                else:
+                    steps = [DF.rename_fields({render_re(p['src']): name(p['tgt']) for p in c['arg']}, regex=regex, **kw)]
+                origin = {f: (schema[want_sel.index(f)] if op == 'rename' else f) for f in want_sel}
+                want = {n: (want_sel if n in chosen else schema) for n in ('t1', 't2', 't3')}
+                types = {n: {f: 'integer' for f in want[n]} for n in want}
+                consts = {}
+            else:
+                schema = ['a', 'b']
+                adder, editor = item['adder'], item['editor']
+                if adder == 'add_field':
+                    a = DF.add_field('z', 'integer', 5)
+                elif adder == 'acf_dict':
+                    a = DF.add_computed_field(target=dict(name='z', type='integer'), operation='constant', with_=5)
+                elif adder == 'acf_list':
+                    a = DF.add_computed_field([dict(target=dict(name='z', type='integer'), operation='constant', with_=5)])
+                else:
+                    a = DF.add_computed_field(target='z', operation='sum', source=['a', 'b'])
+                after = {'rename': ['a', 'b', 'zz'], 'delete': ['a', 'b'], 'select': ['a', 'b'], 'set_type': ['a', 'b', 'z'],
+                         'rename_a': ['A', 'b', 'z']}[editor]
+                b = {'rename': lambda: DF.rename_fields({'z': 'zz'}, **kw), 'delete': lambda: DF.delete_fields(['z'], **kw),
+                     'select': lambda: DF.select_fields(['a', 'b'], **kw), 'set_type': lambda: DF.set_type('z', type='number', **kw),
+                     'rename_a': lambda: DF.rename_fields({'a': 'A'}, **kw)}[editor]()
+                steps = [a, b]
+                want = {n: (after if n in chosen else ['a', 'b', 'z']) for n in ('t1', 't2', 't3')}
+                origin = {'zz': 'z', 'A': 'a'}
+                types = {n: {f: ('number' if (f == 'z' and editor == 'set_type' and n in chosen) else 'integer') for f in want[n]} for n in want}
+                consts = {'z': None if adder == 'acf_sum' else 5}
+            rows = {n: [{f: 100 * k + 10 * r + i for i, f in enumerate(schema)} for r in (1, 2)] for k, n in enumerate(('t1', 't2', 't3'), 1)}
+            src = tuple_source([(n, [(f, 'integer') for f in schema], [dict(x) for x in rows[n]]) for n in ('t1', 't2', 't3')])
+            ds = Flow(src, *steps).datastream()
+            out = [[dict(r) for r in res] for res in ds.res_iter]
+            descs = ds.dp.descriptor['resources']
+    except Exception as e:
+        return dict(ok=False, why='raised %s: %s' % (type(e).__name__, str(e)[:200]))
+    if [d['name'] for d in descs] != ['t1', 't2', 't3'] or len(out) != 3:
+        return dict(ok=False, why='resources changed', got=[d['name'] for d in descs])
+    for d, rs in zip(descs, out):
+        n = d['name']
+        fields = [f['name'] for f in d['schema']['fields']]
+        if fields != want[n]:
+            return dict(ok=False, why='field list of a %s resource differs' % ('selected' if n in chosen else 'NON-selected'), resource=n, got=fields, want=want[n])
+        ftypes = {f['name']: f['type'] for f in d['schema']['fields']}
+        if ftypes != types[n]:
+            return dict(ok=False, why='field types of a %s resource differ' % ('selected' if n in chosen else 'NON-selected'), resource=n, got=ftypes, want=types[n])
+        if len(rs) != 2:
+            return dict(ok=False, why='row count changed', resource=n, got=len(rs))
+        for ri, r in enumerate(rs):
+            if sorted(r.keys()) != sorted(fields):
+                return dict(ok=False, why='row keys differ from the field list of the same resource', resource=n, got=sorted(r.keys()), want=fields)
+            for f in fields:
+                o = origin.get(f, f) if n in chosen else f
+                if o in schema:
+                    if r[f] != rows[n][ri][o]:
+                        return dict(ok=False, why='a kept field changed its value', resource=n, field=f, got=repr(r[f]))
+                elif o in consts:
+                    exp = consts[o] if consts[o] is not None else rows[n][ri]['a'] + rows[n][ri]['b']
+                    if r[f] != exp:
+                        return dict(ok=False, why='the added field lost its value', resource=n, field=f, got=repr(r[f]), want=exp)
+    return dict(ok=True)
+
+
+def multi_items(cases, r, t):
+    base = [c for c in cases if c['op'] in ('select', 'delete', 'rename')]
+    r.shuffle(base)
+    items = [dict(kind='case', case=c, sel=SELECTORS[i % len(SELECTORS)]) for i, c in enumerate(base[:600 if t == 'quick' else 12000])]
+    for adder in ('add_field', 'acf_dict', 'acf_list', 'acf_sum'):
+        for editor in ('rename', 'delete', 'select', 'set_type', 'rename_a'):
+            for sel in SELECTORS:
+                items.append(dict(kind='two-step', adder=adder, editor=editor, sel=sel))
+    return items
+
+
 def run():
     rep = Report(PROP)
     t = rep.tier
@@ -168,6 +279,24 @@ def run():
                              {render_re(p['src']): name(p['tgt']) for p in a} if c['op'] == 'rename' else a))
             rep.violation(c, dict(desc, **{k: v for k, v in out.items() if k != 'ok'}),
                           category='%s/%s/%s' % (c['op'], 'regex' if c['regex'] else 'literal', out['why'][:40]))
+    mitems = multi_items(cases, r, t)
+    mres = pmap(replay_multi, mitems, chunksize=32)
+    errs = harness_errors(mres)
+    if errs:
+        raise tlc.MachineryError('harness error in multi-resource replay: ' + errs[0])
+    for it, out in zip(mitems, mres):
+        rep.count(1, traces=1)
+        rep.mark_distinct(['multi', it])
+        if not out['ok']:
+            desc = dict(resources_selector=it['sel'])
+            if it['kind'] == 'case':
+                c = it['case']
+                desc.update(op=c['op'], regex=c['regex'], schema=[name(n) for n in c['schema']])
+            else:
+                desc.update(program=[it['adder'] + ' on every resource', it['editor'] + ' on the selected ones'])
+            rep.violation(dict(multi=it), dict(desc, **{k: v for k, v in out.items() if k != 'ok'}),
+                          category='several-resources/%s/%s' % (it['kind'] if it['kind'] == 'case' else it['adder'] + '+' + it['editor'], out['why'][:40]))
+    rep.notes['several_resources_cases'] = len(mitems)
     smp = [c for c in cases if c['op'] in ('select', 'delete', 'rename')][-1]
     rep.sample(dict(case=dict(op=smp['op'], schema=[name(n) for n in smp['schema']], regex=smp['regex'],
                               patterns=[render_re(p['src'] if smp['op'] == 'rename' else p) for p in smp['arg']],
@@ -180,7 +309,7 @@ def run():
 def replay(path):
     setup_repo()
     rec = json.load(open(path))
-    out = replay_case(rec['case'])
+    out = replay_multi(rec['case']['multi']) if 'multi' in rec['case'] else replay_case(rec['case'])
     print(json.dumps(out, default=str)[:1500])
     if not out['ok']:
         print('VIOLATION property=%s replay=%s' % (PROP, path))
